@@ -7,7 +7,17 @@ and groups of instances (equal spelling, permuted containers, numerically equal 
 Python type, near misses).  Violation search: the clauses of the statement evaluated directly on the
 implementation (reflexive/symmetric/transitive, field-wise agreement, eq => equal hash and collapse
 in set/dict, copies equal with equal hash, copies independent under mutation histories and
-validated like a regularly constructed instance)."""
+validated like a regularly constructed instance).
+
+Independence of copies is additionally checked on the OBJECT GRAPH (harness/c11graph.py): no mutable object
+may be reachable from both an instance and its deep / unpickled copy (wrapper -> owner edges included); a
+shared object is reported only after an actual change of it through its own public interface, reached from
+one instance, was observed to change the other.  Inputs: every generated instance, and a deterministic
+lattice of value shapes (chains of tuple / list / deque / dict / set / frozenset ending in a nested Structure
+or in numbers, held by a typed field, an Anything field, an undeclared attribute).  The observed graphs are
+also emitted as Gallina literals: inside Coq the model's deepcopy (Struct/CopyHeap.v, under the copy policy
+re-read from the source, Gen/CopySites.v) must yield the same value and share the same mutable objects as
+the observed copy, and the separation clause is evaluated on the observed graph (Check/C11heapchk.v)."""
 import collections
 import copy
 import decimal
@@ -23,6 +33,7 @@ from harness import core
 from harness import coqemit as E
 from harness import fieldgen as G
 from harness import structgen as S
+from harness import c11graph as CG
 
 DYN = "harness_c11_dyn"
 
@@ -159,12 +170,42 @@ def gen_class(rnd, name, idx):
     if rnd.random() < 0.3:
         extra.append({"name": "m_", "field": {"t": "mapkv", "kf": {"t": "str"},
                                               "vf": {"t": "num", "k": "Number", "s": "Any"}, "sz": [None, None]}})
+    if rnd.random() < 0.4:
+        # a typed declaration whose values nest mutable objects inside immutable / other containers
+        chain, leaf = rnd.choice(RICH_TYPED)
+        extra.append({"name": "t_", "field": CG.shape_field(chain, leaf)})
     c["fields"] += extra
     if extra and c.get("required") is None and rnd.random() < 0.7:
         c["required"] = sorted(rnd.sample([f["name"] for f in c["fields"]], rnd.randint(0, 2)))
     if rnd.random() < 0.25:
         c["undefined"] = True
     return c
+
+
+RICH_SHAPES = [sh for sh in CG.shapes(2) if sh[0]]
+
+
+def _has_raw(f):
+    if f.get("t") == "raw":
+        return True
+    return any(_has_raw(g) for key in ("item", "kf", "vf") for g in [f.get(key)] if isinstance(g, dict)) or \
+        any(_has_raw(g) for key in ("items", "fs") for g in (f.get(key) or []))
+
+
+# typed declarations that can be emitted as a model classdef (the subscript form Tuple[Inner] cannot)
+RICH_TYPED = [sh for sh in RICH_SHAPES if not _has_raw(CG.shape_field(*sh))]
+
+
+def rich_value(rnd):
+    """A nested value with mutable objects inside (for Anything fields and undeclared attributes)."""
+    chain, leaf = rnd.choice(RICH_SHAPES)
+    return CG.shape_value(chain, leaf, rnd.randint(0, 3))
+
+
+def enrich(rnd, c, kw):
+    """Values of Anything fields replaced (half of the time) by nested values holding mutable objects."""
+    anys = {fd["name"] for fd in c["fields"] if fd["field"]["t"] == "any"}
+    return [(k, rich_value(rnd) if (k in anys and rnd.random() < 0.5) else v) for k, v in kw]
 
 
 # ------------------------------------------------------------------ variants of a kwargs list
@@ -252,7 +293,7 @@ def gen_group(rnd, c, ctx):
         made = S.make_valid_instance(rnd, c, ctx)
         if made is None:
             continue
-        kw = made[0]
+        kw = enrich(rnd, c, made[0])
         if any(has_other(v) for _, v in kw) or try_build(cls, kw, ctx) is None:
             continue
         break
@@ -305,7 +346,8 @@ def gen_group(rnd, c, ctx):
             if try_build(cls, nk2, ctx) is not None:
                 out.append(("none-set", nk2))
     if c.get("additional") and rnd.random() < 0.6:
-        ek = kw + [("extra_1", rnd.choice([("int", 3), ("str", "x"), ("list", [("int", 1), ("int", 2)])]))]
+        ek = kw + [("extra_1", rnd.choice([("int", 3), ("str", "x"), ("list", [("int", 1), ("int", 2)]),
+                                           rich_value(rnd), rich_value(rnd)]))]
         if try_build(cls, ek, ctx) is not None:
             out.append(("extra", ek))
             out.append(("extra-same", ek))
@@ -940,6 +982,174 @@ def evaluate(groups, ctx, tag="c11"):
     return pout, cout, pflat, cflat
 
 
+
+# ------------------------------------------------------------------ object graphs: what a copy shares with its original
+
+HEADER_H = """From Coq Require Import ZArith NArith String List Bool. Import ListNotations.
+From TP Require Import Check.C11heapchk.
+Local Open Scope string_scope.
+"""
+H_FUNCS = ("h_dom", "h_mismatch", "h_spec_fail", "h_predicted_shared")
+GRAPH_KINDS = ("deepcopy", "pickle", "copy")
+
+
+def sharing_python(c, ctx, kw, kind):
+    return python_src(c, ctx, [kw], "y = %s\n# every mutable object reachable from y must be unreachable from x0\n" % {
+        "copy": "copy.copy(x0)", "deepcopy": "copy.deepcopy(x0)", "pickle": "pickle.loads(pickle.dumps(x0))"}[kind])
+
+
+def sharing_check(rep, stream, c, ctx, kw, hcases, shape_key):
+    """The separation clause on one instance, for each kind of copy; observed graphs are queued for Coq."""
+    cls = ctx.classes[c["name"]]
+    build = lambda: cls(**S.realize_kwargs(kw, ctx))
+    for kind in GRAPH_KINDS:
+        if kind == "copy":
+            # shallow copies share their attribute values by design: outside the independence claim; the graph is
+            # kept for the correspondence with the model's copy_shallow
+            try:
+                x = build()
+                y = copy.copy(x)
+            except Exception:  # noqa
+                continue
+            if y is x:
+                continue
+            fails, stats, gt = [], [], CG.graph_of(x, y)
+            rep.stat(stream, "copy:" + ("shares-mutable" if CG.shared_mutable(*gt) else "shares-nothing-mutable"))
+        else:
+            try:
+                fails, stats, gt = CG.sharing_fails(build, kind, public_state)
+            except (pickle.PicklingError, TypeError, AttributeError):
+                if kind == "pickle":
+                    rep.stat(stream, "pickle:unpicklable")
+                    continue
+                raise
+            rep.count(stream, 1, (kind, shape_key, bool(fails)))
+            for st in stats:
+                rep.stat(stream, kind + ":" + st)
+            for key, what in fails:
+                rep.stat(stream, kind + ":" + key)
+                rep.finding("C11/independence/%s/%s" % (kind, key), what,
+                            {"class": c, "kwargs": [kw], "scenario": "sharing", "copy": kind,
+                             "python": sharing_python(c, ctx, kw, kind)})
+        if gt is not None:
+            if gt[2][0] != "ref":
+                rep.stat(stream, "immutable-instance(a value, no graph)")
+            elif CG.has_opaque(gt[0], reify_val):
+                rep.stat(stream, "graph-outside-model-domain")
+            else:
+                hcases.append({"kind": kind, "gt": gt, "class": c, "kw": kw, "flagged": bool(fails),
+                               "unobservable": any(s.startswith("shared-but-no-observable-effect") for s in stats)})
+
+
+def lattice_stream(rep, tier, hcases):
+    """Deterministic enumeration: every chain (length <= 3, thorough 4) of tuple / list / deque / dict value /
+    set / frozenset ending in a nested mutable Structure or in numbers, held by a typed field, an Anything
+    field, an undeclared attribute."""
+    depth = 3 if tier == "quick" else 4
+    n = 0
+    for chain, leaf in CG.shapes(depth):
+        for holder, c, kw in CG.lattice_classes(chain, leaf):
+            try:
+                ctx = make_ctx([c])
+                cls = ctx.classes[c["name"]]
+                cls(**S.realize_kwargs(kw, ctx))
+            except Exception:  # noqa  (e.g. a typed Set of unhashable items)
+                rep.stat("sharing-lattice", "declaration-or-value-rejected:" + holder)
+                continue
+            rep.stat("sharing-lattice", "holder:" + holder)
+            rep.stat("sharing-lattice", "depth:%d/leaf:%s" % (len(chain), leaf))
+            # the Coq side of the deepest level is sampled (every 3rd case): the Python clause sees all
+            n += 1
+            keep = [] if (len(chain) >= 4 and n % 3) else hcases
+            sharing_check(rep, "sharing-lattice", c, ctx, kw, keep, (holder, chain, leaf))
+
+
+def evaluate_heaps(hcases, tag="c11h"):
+    """-> ({fn: [indices]}, policy facts dict)."""
+    shards = []
+    for i in range(0, len(hcases), 250):
+        body = ["Definition hcases : list hcase := %s." % E.lst(
+            ["\n " + CG.emit_hcase(h["kind"], h["gt"], reify_val) for h in hcases[i:i + 250]])]
+        for fn in H_FUNCS:
+            body.append("Eval vm_compute in (indices_where %s hcases 0)." % fn)
+        shards.append("\n".join(body) + "\n")
+    shards.append("Eval vm_compute in policy_readable.\nEval vm_compute in policy_is_safe.\n"
+                  "Eval vm_compute in policy_unsafe_types.\nEval vm_compute in copy_sites.\n")
+    res = core.eval_cases(shards, tag, HEADER_H)
+    out = {fn: [] for fn in H_FUNCS}
+    for si, (rc, so, se) in enumerate(res[:-1]):
+        vals = core.parse_eval(so)
+        if rc != 0 or len(vals) != len(H_FUNCS):
+            raise RuntimeError("graph shard %d failed to evaluate: %s" % (si, (so + se)[-1500:]))
+        for fn, v in zip(H_FUNCS, vals):
+            out[fn] += [si * 250 + i for i in core.parse_nat_list(v)]
+    rc, so, se = res[-1]
+    vals = core.parse_eval(so)
+    if rc != 0 or len(vals) != 4:
+        raise RuntimeError("policy facts failed to evaluate: %s" % (so + se)[-1500:])
+    pol = {"readable": vals[0].strip() == "true", "safe": vals[1].strip() == "true",
+           "unsafe_types": [t for t in vals[2].replace("[", " ").replace("]", " ").replace(";", " ").split() if t.startswith("T")],
+           "policy": vals[3]}
+    return out, pol
+
+
+def graph_obligations(rep, hcases):
+    """Correspondence of the model's copy with the observed graphs, the separation clause evaluated in Coq,
+    and the facts about the copy policy read from the source."""
+    hout, pol = evaluate_heaps(hcases)
+    s = rep.cov["streams"].setdefault("graphs", {"evaluations": 0})
+    s["evaluations"] = len(hcases)
+    s["theorem_hypotheses_hold(closed, immutable-opaque)"] = len(hout["h_dom"])
+    s["model_predicts_shared_mutable"] = len(hout["h_predicted_shared"])
+    s["observed_shared_mutable"] = len(hout["h_spec_fail"])
+    s["copy_policy_from_source"] = pol["policy"]
+    by_kind = {}
+    for h in hcases:
+        by_kind[h["kind"]] = by_kind.get(h["kind"], 0) + 1
+    s["dist"] = {"kind:" + k: v for k, v in by_kind.items()}
+    concrete = any(not v["no_input"] for v in rep.violations)
+    rep.obligation("tables:copy-policy-readable", pol["readable"], pol["policy"][:250])
+    rep.obligation("tables:copy-policy-safe", pol["safe"],
+                   "re-used types that can hold mutable objects: %s" % (pol["unsafe_types"] or "none"))
+    if not pol["readable"] and not concrete:
+        rep.broken("tables:copy-policy-readable",
+                   "harness/genmods/copy_sites.py no longer recognises the shape of Structure.__deepcopy__ or of a wrapper's "
+                   "__deepcopy__ (Gen/CopySites.v has UnknownPol): the model cannot follow the code; no shared mutable object "
+                   "was found on any lattice or generated input", {"policy": pol["policy"]})
+    elif not pol["safe"] and not concrete:
+        rep.broken("tables:copy-policy-safe",
+                   "the copy routines re-use values of %s (C11_unsafe_policy_witness applies to the MODEL); the witness shapes "
+                   "are part of the lattice, and no shared mutable object was observed on the implementation" % pol["unsafe_types"],
+                   {"policy": pol["policy"]})
+    if len(hout["h_dom"]) < 0.9 * max(1, len(hcases)):
+        rep.broken("correspondence:graph-domain", "%d of %d observed graphs fall outside the model's domain: inconclusive" % (
+            len(hcases) - len(hout["h_dom"]), len(hcases)))
+    bad = hout["h_mismatch"]
+    if bad and os.environ.get("C11_DEBUG"):
+        for b in bad[:8]:
+            h = hcases[b]
+            print("DEBUG graph", h["kind"], S.class_src(h["class"]), h["kw"], CG.emit_hcase(h["kind"], h["gt"], reify_val), sep="\n   ")
+    rep.obligation("correspondence:copy-graphs(value, shared mutable objects)", not bad,
+                   "%d observed graphs, %d mismatches" % (len(hcases), len(bad)))
+    if bad and not concrete:
+        h = hcases[bad[0]]
+        rep.broken("correspondence:copy-graphs",
+                   "the model's %s (under the policy read from the source) and the real one differ in value or in the mutable "
+                   "objects shared with the original on %d observed graphs; no clause of C11 failed on any explored input" % (
+                       h["kind"], len(bad)),
+                   {"class": h["class"], "kwargs": [h["kw"]], "scenario": "sharing", "copy": h["kind"]})
+    # the separation clause evaluated in Coq on the observed graph must agree with the evaluation done in Python
+    disagree = [i for i in hout["h_spec_fail"] if not (hcases[i]["flagged"] or hcases[i]["unobservable"])]
+    rep.obligation("spec-on-observed:C11_deepcopy_separated", not [i for i in hout["h_spec_fail"] if hcases[i]["flagged"]],
+                   "%d observed deep / unpickled copies, %d share a mutable object with the original (%d of them with no "
+                   "observable effect)" % (sum(1 for h in hcases if h["kind"] != "copy"), len(hout["h_spec_fail"]),
+                                           sum(1 for i in hout["h_spec_fail"] if hcases[i]["unobservable"] and not hcases[i]["flagged"])))
+    if disagree:
+        h = hcases[disagree[0]]
+        rep.broken("evaluators:separation", "separatedb (Coq) reports sharing on %d observed graphs on which the Python walk "
+                   "found none" % len(disagree), {"class": h["class"], "kwargs": [h["kw"]], "scenario": "sharing", "copy": h["kind"]})
+    return pol
+
 # ------------------------------------------------------------------ replay
 
 def python_src(c, ctx, kws, note=""):
@@ -962,6 +1172,15 @@ def replay(obj):
         fails, _, strs, hs = check_group(insts, [])
         for s, h in zip(strs, hs):
             print("instance :", s, " hash", h)
+    elif obj.get("scenario") == "sharing":
+        build = lambda: cls(**S.realize_kwargs(kws[0], ctx))
+        print("class    :", S.class_src(c))
+        print("instance :", build(), "\ncopy     :", obj["copy"])
+        got, stats, _ = CG.sharing_fails(build, obj["copy"], public_state)
+        fails = [("independence/%s/%s" % (obj["copy"], k), w, {}) for k, w in got]
+        for st in stats:
+            print("graph    :", st)
+        print("required : no mutable object reachable from both the original and its", obj["copy"])
     elif obj.get("scenario") == "copy":
         x = cls(**S.realize_kwargs(kws[0], ctx))
         fails, y = check_copy(obj["copy"], x, c)
@@ -1002,17 +1221,39 @@ def _tuplify(v):
 
 # ------------------------------------------------------------------ run
 
+def _tick(label, t=[None]):
+    if os.environ.get("C11_TIMING"):
+        import time
+        now = time.time()
+        if t[0] is not None:
+            print("TIMING %-28s %.1fs" % (label, now - t[0]))
+        t[0] = now
+
+
 def run(rep, tier):
+    _tick("start")
     rnd = random.Random(core.seed() * 1000003 + 11)
     nclasses = 110 if tier == "quick" else 900
     nhist = 2 if tier == "quick" else 5
-    proofs_ok, model_ok = core.standard_proof_obligations(rep, "C11", ["theories/Check/C11chk.vo"])
+    proofs_ok, model_ok = core.standard_proof_obligations(rep, "C11", ["theories/Check/C11chk.vo",
+                                                                                   "theories/Check/C11heapchk.vo"])
     rep.assumptions += [
         "str() of numbers, repr() of str and of enum values are oracles (Section variables), instantiated per case from CPython",
         "str.__hash__ is uninterpreted (Section variable str_hash): hash agreement is decided through equality of the string form",
         "model values are finite data without nan/inf and arbitrary objects; Decimal exponent spelling (1.0 vs 1) is not represented",
         "nested Structure values compare by py_eq (no explicit None attribute inside nested instances)",
+        "object graphs: an ImmutableStructure is a value (what is behind it cannot change: C04); the scratch Structure() a "
+        "nested wrapper is bound to is not part of the graph; CPython's deepcopy of built-in containers is modelled "
+        "(new object, children copied, an unchanged tuple returned itself), sharing preserved by the memo INSIDE one "
+        "instance is not (tree copy)",
+        "client operations in C11_separated_frames: allocation, in-place replacement of the children of a mutable object "
+        "the client can reach, keeping a reference - every list/dict/set/deque/wrapper method and setattr/delattr is a "
+        "sequence of these",
     ]
+    _tick("proof obligations")
+    hcases = []
+    lattice_stream(rep, tier, hcases)
+    _tick("lattice")
     asts = [gen_class(rnd, "K%d" % i, i) for i in range(nclasses)]
     # realise one by one first so that a rejected declaration does not poison the rest
     keep = []
@@ -1074,6 +1315,10 @@ def run(rep, tier):
                                                              "pickle": "pickle.loads(pickle.dumps(x0))"}[kind])))
                 if y is not None:
                     copies.append((kind, i, inst_state(y)))
+        # what the copies share with the original (object graph)
+        for i in sorted(set([0] + [k for k, l in enumerate(labels) if l in ("extra", "permuted", "changed")][:2])):
+            sharing_check(rep, "sharing-generated", c, ctx, kws[i][1], hcases,
+                          (labels[i], tuple(sorted(f["field"]["t"] for f in c["fields"]))))
         # mutation histories on the copies
         for kind in ("deepcopy", "pickle", "copy"):
             for _ in range(nhist if kind != "copy" else 1):
@@ -1105,9 +1350,11 @@ def run(rep, tier):
         rep.sample({"class": S.class_src(g["ast"]), "instances": g["strs"][:4]})
     if len(groups) < nclasses * 0.5:
         rep.broken("generator:classes", "only %d of %d generated classes yielded a valid instance: inconclusive" % (len(groups), nclasses))
+    _tick("generated classes")
     if model_ok and groups:
         try:
             pout, cout, pflat, cflat = evaluate(groups, ctx)
+            _tick("coq pairs/copies")
         except RuntimeError as ex:
             rep.broken("correspondence:coq-eval", str(ex))
             pout = None
@@ -1157,6 +1404,12 @@ def run(rep, tier):
                            "the model's %s and the real one yield different states on %d cases" % (kind, len(bad)),
                            {"class": g["ast"], "kwargs": [g["kws"][i][1]], "scenario": "copy", "copy": kind,
                             "python": python_src(g["ast"], ctx, [g["kws"][i][1]])})
+    if model_ok and hcases:
+        try:
+            graph_obligations(rep, hcases)
+            _tick("coq graphs")
+        except RuntimeError as ex:
+            rep.broken("correspondence:coq-eval-graphs", str(ex))
     if not proofs_ok:
         from harness.props.c17 import broken_build
         broken_build(rep)
